@@ -191,7 +191,7 @@ func runC17(w *mc.Worker) {
 						}
 					}
 					for si, amt := range []*big.Int{bi(1000), bi(0)} {
-						bal := env.Bal{"a": {"USD": amt, "EUR/2": amt}, "b": {"USD": amt}, "b:c-d_1": {"USD": amt, "EUR/2": amt}, "lit": {"USD": amt}}
+						bal := env.Bal{"a": {"USD": amt, "EUR/2": amt}, "b": {"USD": amt}, "world:c-d_1": {"USD": amt, "EUR/2": amt}, "lit": {"USD": amt}}
 						out := RunReal(pr, vars, env.New(env.Exact, bal, meta), flagsOn)
 						key := text + fmt.Sprint("|sheet", si)
 						if out.Panic != "" {
